@@ -1,13 +1,9 @@
 (* C05 / C19 — the rule evaluator decides the reference semantics on closed rules.
 
-   - C19_next_all : C19_next_all_stmt                      (proof in Rule/SemNav.v, restated at the end)
-   - C05_eval_iff_sem_closed_stmt is FALSE of the model as stated:
-       C05_eval_iff_sem_closed_refuted : i32 overflow of  index - b  in is_matched (nthChild)
-   - C05_eval_iff_sem_partial : the statement with the added hypothesis
-       (H1) rule_nth_bounded / ctx_nth_bounded / doc_small     (no overflow)
-     for ALL 13 operators, any nesting, any utilities.
-   - C05_ofrule_relational_example : nthChild with a relational ofRule (the former second
-     counterexample, fixed in the evaluator: QNthOf keeps the sibling itself) now agrees.
+   - C05_eval_iff_sem_closed : C05_eval_iff_sem_closed_stmt   (the stated theorem: ALL 13 operators,
+     any nesting, any utilities, every node, every start environment)
+   - C19_next_all : C19_next_all_stmt                          (proof in Rule/SemNav.v, restated at the end)
+   - C05_ofrule_relational_example : nthChild with a relational ofRule on a concrete tree.
    Proof: one induction on the evaluator's fuel over all six request kinds ([spec]), the
    reference's fuel universally quantified; closed patterns never touch the environment
    (Rule/SemClosed.v); sibling/field/id navigation facts in Rule/SemNav.v. *)
@@ -16,63 +12,12 @@ From AG Require Import Base.Val Base.Sort Str.MetaVar Str.AnB Tree.Tree Tree.Wf 
   Rule.Rule Rule.Eval Rule.Sem Rule.EvalSpec Rule.SemNav Rule.SemClosed.
 Import ListNotations.
 
-(* ================================================================== added hypotheses *)
-
-(* a predicate holding at every rule node (sub-rules, stop rules, ofRule) *)
-Fixpoint rule_forall (P : rule -> bool) (r : rule) : bool :=
-  let stop_ok (s : stopby) := match s with SRule sr => rule_forall P sr | _ => true end in
-  P r &&
-  match r with
-  | RNth _ _ _ o => match o with Some r' => rule_forall P r' | None => true end
-  | RInside r' s _ | RHas r' s _ => rule_forall P r' && stop_ok s
-  | RPrecedes r' s | RFollows r' s => rule_forall P r' && stop_ok s
-  | RAll rs | RAny rs =>
-      (fix go (l : list rule) := match l with [] => true | x :: t => rule_forall P x && go t end) rs
-  | RNot r' => rule_forall P r'
-  | _ => true
-  end.
-
-(* (H1) no i32 overflow in FunctionalPosition::is_matched: |b| <= 2^30 whenever a <> 0
-   (together with [doc_small]: fewer than 2^30 nodes) *)
-Definition nth_bounded_here (r : rule) : bool :=
-  match r with
-  | RNth a b _ _ => (a =? 0)%Z || ((-1073741824 <=? b)%Z && (b <=? 1073741824)%Z)
-  | _ => true
-  end.
-Definition rule_nth_bounded (r : rule) : bool := rule_forall nth_bounded_here r.
-Definition ctx_nth_bounded (c : ctx) : bool := forallb (fun p => rule_nth_bounded (snd p)) (c_utils c).
-Definition doc_small (c : ctx) : Prop := (Z.of_nat (size (c_root c)) < 1073741824)%Z.
-
-Definition C05_eval_iff_sem_partial_stmt : Prop :=
-  forall c r n e fuel1 fuel2 res e' b,
-    rule_closed r = true -> ctx_closed c = true -> doc_ok c r ->
-    rule_nth_bounded r = true -> ctx_nth_bounded c = true -> doc_small c ->
-    eval fuel1 c (QRule r n) e = (EFound res, e') ->
-    sem fuel2 c r n = Some b ->
-    b = is_some res.
-
-(* ================================================================== refutations *)
+(* ================================================================== a concrete example *)
 
 Definition wit_info (id k s e : N) : ninfo :=
   {| nid := id; nkind := k; nnamed := true; ncomment := false; nmissing := false; nfld := 0; ns := s; ne := e |}.
 Definition wit_root : tree := T (wit_info 0 7 0 1) [T (wit_info 1 8 0 1) []].
 Definition wit_ctx : ctx := {| c_src := [120%N]; c_root := wit_root; c_utils := [] |}.
-
-Lemma wit_doc_ok : forall r, rule_fields r = [] -> doc_ok wit_ctx r.
-Proof.
-  intros r Hr. unfold doc_ok. repeat split; try reflexivity.
-  - unfold ids_unique. cbn. repeat constructor; cbn; intuition discriminate.
-  - rewrite Hr. cbn. contradiction.
-Qed.
-
-(* i32 overflow: index - b does not fit, the evaluator's is_matched gives up, the reference says yes *)
-Lemma C05_eval_iff_sem_closed_refuted : ~ C05_eval_iff_sem_closed_stmt.
-Proof.
-  intros H.
-  specialize (H wit_ctx (RNth 1 (-2147483648) false None) [0] empty_env 2 2 None empty_env true
-                eq_refl eq_refl (wit_doc_ok (RNth 1 (-2147483648) false None) eq_refl) eq_refl eq_refl).
-  discriminate H.
-Qed.
 
 (* nthChild with a relational ofRule: evaluator and reference agree (QNthOf keeps the sibling) *)
 Lemma C05_ofrule_relational_example :
@@ -85,21 +30,20 @@ Proof. split; reflexivity. Qed.
 
 Definition goodr (c : ctx) (r : rule) : Prop :=
   rule_closed r = true /\
-  rule_forall nth_bounded_here r = true /\
   (forall f, In f (rule_fields r) -> field_uniqueb f (c_root c) = true).
 
 Ltac gsplit :=
-  unfold goodr in *; cbn [rule_closed rule_forall rule_fields] in *;
+  unfold goodr in *; cbn [rule_closed rule_fields] in *;
   repeat match goal with
          | H : _ /\ _ |- _ => destruct H
          | H : _ && _ = true |- _ => apply andb_true_iff in H
          end.
 
 Ltac good_tac :=
-  (split; [assumption | split; [assumption |
+  (split; [assumption |
      let f := fresh "f" in let Hf := fresh "Hf" in
      intros f Hf; match goal with HF : forall f, In f _ -> _ |- _ => apply HF end;
-     rewrite ?in_app_iff; cbn [In]; tauto ]]).
+     rewrite ?in_app_iff; cbn [In]; tauto ]).
 
 Lemma goodr_rel : forall c r' s fld,
   goodr c (RInside r' s fld) \/ goodr c (RHas r' s fld) ->
@@ -125,25 +69,19 @@ Qed.
 Lemma goodr_not : forall c r', goodr c (RNot r') -> goodr c r'.
 Proof. intros c r' H. gsplit. repeat split; assumption. Qed.
 
-Lemma goodr_nth : forall c a b rv r', goodr c (RNth a b rv (Some r')) ->
-  goodr c r' /\ nth_bounded_here (RNth a b rv (Some r')) = true.
+Lemma goodr_nth : forall c a b rv r', goodr c (RNth a b rv (Some r')) -> goodr c r'.
 Proof. intros c a b rv r' H. gsplit. repeat split; assumption. Qed.
-
-Lemma goodr_nth_none : forall c a b rv, goodr c (RNth a b rv None) ->
-  nth_bounded_here (RNth a b rv None) = true.
-Proof. intros c a b rv H. gsplit. assumption. Qed.
 
 Lemma goodr_list : forall c rs, goodr c (RAll rs) \/ goodr c (RAny rs) -> Forall (goodr c) rs.
 Proof.
   intros c rs H.
   assert (G : (fix go (l : list rule) := match l with [] => true | x :: t => rule_closed x && go t end) rs = true /\
-              (fix go (l : list rule) := match l with [] => true | x :: t => rule_forall nth_bounded_here x && go t end) rs = true /\
               (forall f, In f ((fix go (l : list rule) := match l with [] => [] | x :: t => rule_fields x ++ go t end) rs) ->
                          field_uniqueb f (c_root c) = true)).
   { destruct H as [H|H]; gsplit; repeat split; assumption. }
   clear H. induction rs as [|x rs IH]; [constructor|].
-  destruct G as (G1 & G2 & G4).
-  apply andb_true_iff in G1 as [G1 G1']. apply andb_true_iff in G2 as [G2 G2']. constructor.
+  destruct G as (G1 & G4).
+  apply andb_true_iff in G1 as [G1 G1']. constructor.
   - repeat split; try assumption. intros f Hf. apply G4. apply in_or_app. now left.
   - apply IH. repeat split; try assumption. intros f Hf. apply G4. apply in_or_app. now right.
 Qed.
@@ -159,14 +97,13 @@ Qed.
 Definition goodc (c : ctx) : Prop := forall id ur, lookup id (c_utils c) = Some ur -> goodr c ur.
 
 Lemma goodc_intro : forall c r,
-  ctx_closed c = true -> ctx_nth_bounded c = true -> doc_ok c r -> goodc c.
+  ctx_closed c = true -> doc_ok c r -> goodc c.
 Proof.
-  intros c r H1 H2 (_ & _ & _ & H4) id ur Hl.
+  intros c r H1 (_ & _ & _ & H4) id ur Hl.
   destruct (lookup_In _ _ _ _ Hl) as [k Hk].
-  unfold ctx_closed, ctx_nth_bounded in *. rewrite forallb_forall in H1, H2.
-  repeat split.
+  unfold ctx_closed in *. rewrite forallb_forall in H1.
+  split.
   - exact (H1 _ Hk).
-  - exact (H2 _ Hk).
   - intros f Hf. apply H4. apply in_or_app. right. apply in_flat_map. exists (k, ur). split; assumption.
 Qed.
 
@@ -597,19 +534,10 @@ Proof.
 Qed.
 
 Lemma is_matched_formula : forall a b i,
-  (Z.of_nat i + 1 < 1073741824)%Z ->
-  ((a =? 0)%Z || ((-1073741824 <=? b)%Z && (b <=? 1073741824)%Z)) = true ->
   is_matched a b (Z.of_nat i) = Some (nth_formula a b i).
 Proof.
-  intros a b i Hi Hb. unfold is_matched, nth_formula.
-  destruct (a =? 0)%Z eqn:Ea; [reflexivity|]. cbn [orb] in Hb.
-  apply andb_true_iff in Hb as [Hb1 Hb2]. apply Z.leb_le in Hb1, Hb2.
-  assert (Hok : i32_ok (Z.of_nat i + 1 - b) = true).
-  { unfold i32_ok, i32_min, i32_max. apply andb_true_iff. split; apply Z.leb_le; lia. }
-  rewrite Hok. cbn [negb].
-  assert (Hne : (Z.of_nat i + 1 - b =? i32_min)%Z = false).
-  { apply Z.eqb_neq. unfold i32_min. lia. }
-  rewrite Hne. cbn [andb]. f_equal. apply andb_comm.
+  intros a b i. unfold is_matched, nth_formula. cbn zeta.
+  destruct (a =? 0)%Z; [reflexivity|]. f_equal. apply andb_comm.
 Qed.
 
 Lemma named_child_in : forall c pp x, In x (named_child_locs c pp) ->
@@ -698,7 +626,6 @@ Variable c : ctx.
 Hypothesis Hwf : wfb (c_root c) = true.
 Hypothesis Hnz : nonzero_widthb (c_root c) = true.
 Hypothesis Hids : ids_unique (c_root c).
-Hypothesis Hsmall : doc_small c.
 Hypothesis Hutils : goodc c.
 
 Definition ok_res (r0 : eres) (S : nat -> option bool) : Prop :=
@@ -809,8 +736,7 @@ Lemma nth_sem_inv : forall (g : loc -> option bool) (pp : loc) (ids : list N) (r
          | None => false
          | Some i => nth_formula a b i
          end /\
-  forall i, index_of (tid t) (if rv then rev ids else ids) 0 = Some i ->
-            (Z.of_nat i + 1 < 1073741824)%Z /\ g n = Some true.
+  forall i, index_of (tid t) (if rv then rev ids else ids) 0 = Some i -> g n = Some true.
 Proof.
   intros g pp ids rv n t a b bres Hn Hpp Hids' Hs. cbn zeta in Hs.
   set (nameds := named_child_locs c pp) in *.
@@ -822,11 +748,7 @@ Proof.
   { subst ids. destruct rv; [now rewrite map_rev | reflexivity]. }
   rewrite <- E in Hs. split.
   - destruct (index_of (tid t) (if rv then rev ids else ids) 0); now injection Hs as <-.
-  - intros i Hi. destruct (index_of_some _ _ _ _ Hi) as [Hin Hlt]. split.
-    + assert (length (if rv then rev ids else ids) <= length nameds).
-      { rewrite E, map_length. transitivity (length kept); [destruct rv; [rewrite rev_length|]; lia|].
-        apply filter_length. }
-      pose proof (named_child_length c pp). fold nameds in H0. unfold doc_small in Hsmall. lia.
+  - intros i Hi. destruct (index_of_some _ _ _ _ Hi) as [Hin Hlt].
     + rewrite E in Hin. apply in_map_iff in Hin as (x & Hx & Hxin).
       assert (Hxk : In x kept) by (destruct rv; [now apply in_rev|assumption]).
       unfold kept in Hxk. apply filter_In in Hxk as [Hxn Hxt].
@@ -1163,7 +1085,6 @@ Lemma step_nth_none : forall f a b rv n t e,
   ok_res (fst (eval (S f) c (QRule (RNth a b rv None) n) e)) (fun f2 => sem f2 c (RNth a b rv None) n).
 Proof.
   intros f a b rv n t e Hn Hg. rewrite (eval_nth_none _ _ _ _ _ _ _ _ Hn).
-  pose proof (goodr_nth_none _ _ _ _ Hg) as Hb. cbn [nth_bounded_here] in Hb.
   eapply ok_res_sem; [intros f2; apply (sem_nth _ _ _ _ _ _ _ _ Hn)|].
   destruct (parent_loc n) as [pp|] eqn:Hpp;
     [|cbn [fst ok_res]; intros f2 b' Hs; now injection Hs as <-].
@@ -1175,10 +1096,9 @@ Proof.
   clear Hpre.
   destruct (index_of (tid t) (if rv then rev ids else ids) 0) as [i|] eqn:Ei.
   2: { cbn [fst ok_res]. intros f2 bres Hs. destruct (Hinv f2 bres Hs) as [Hb' _]. try rewrite Ei in Hb'. exact Hb'. }
-  destruct (is_matched a b (Z.of_nat i)) as [[|]|] eqn:Em; cbn [fst ok_res]; intros f2 bres Hs;
-    destruct (Hinv f2 bres Hs) as [Hb' Hall]; try rewrite Ei in Hb'; destruct (Hall i ltac:(first [exact Ei | reflexivity])) as [Hbound _];
-    rewrite (is_matched_formula a b i Hbound Hb) in Em;
-    [injection Em as Em | injection Em as Em | discriminate]; rewrite Hb', Em; reflexivity.
+  rewrite (is_matched_formula a b i).
+  destruct (nth_formula a b i) eqn:Em; cbn [fst ok_res]; intros f2 bres Hs;
+    destruct (Hinv f2 bres Hs) as [Hb' _]; try rewrite Ei in Hb'; rewrite Hb'; reflexivity.
 Qed.
 
 Lemma step_nth_some : forall f, IHf f -> forall a b rv r' n t e,
@@ -1187,7 +1107,7 @@ Lemma step_nth_some : forall f, IHf f -> forall a b rv r' n t e,
          (fun f2 => sem f2 c (RNth a b rv (Some r')) n).
 Proof.
   intros f IH a b rv r' n t e Hn Hg. rewrite (eval_nth_some _ _ _ _ _ _ _ _ _ Hn).
-  destruct (goodr_nth _ _ _ _ _ Hg) as (Hr' & Hb). cbn [nth_bounded_here] in Hb.
+  pose proof (goodr_nth _ _ _ _ _ Hg) as Hr'.
   eapply ok_res_sem; [intros f2; apply (sem_nth _ _ _ _ _ _ _ _ Hn)|].
   destruct (parent_loc n) as [pp|] eqn:Hpp;
     [|cbn [fst ok_res]; intros f2 b' Hs; now injection Hs as <-].
@@ -1197,20 +1117,18 @@ Proof.
   pose proof (fun f2 bres Hs => nth_sem_inv (fun x => sem f2 c r' x) pp ids rv n t a b bres Hn Hpp (H1 f2) Hs) as Hinv.
   destruct (index_of (tid t) (if rv then rev ids else ids) 0) as [i|] eqn:Ei.
   2: { cbn [fst ok_res]. intros f2 bres Hs. destruct (Hinv f2 bres Hs) as [Hb' _]. try rewrite Ei in Hb'. exact Hb'. }
-  destruct (is_matched a b (Z.of_nat i)) as [[|]|] eqn:Em.
+  rewrite (is_matched_formula a b i).
+  destruct (nth_formula a b i) eqn:Em.
   - pose proof (IH (QRule r' n) e Hr') as H2.
     destruct (eval f c (QRule r' n) e) as [[[m|]|l|] e2]; cbn [fst ok_res] in H2 |- *;
       try exact I; try contradiction.
-    + intros f2 bres Hs. destruct (Hinv f2 bres Hs) as [Hb' Hall]. try rewrite Ei in Hb'.
-      destruct (Hall i ltac:(first [exact Ei | reflexivity])) as [Hbound _]. rewrite (is_matched_formula a b i Hbound Hb) in Em.
-      injection Em as Em. rewrite Hb', Em. reflexivity.
-    + intros f2 bres Hs. destruct (Hinv f2 bres Hs) as [_ Hall]. destruct (Hall i ltac:(first [exact Ei | reflexivity])) as [_ Hsn].
+    + intros f2 bres Hs. destruct (Hinv f2 bres Hs) as [Hb' _]. try rewrite Ei in Hb'.
+      rewrite Hb'. reflexivity.
+    + intros f2 bres Hs. destruct (Hinv f2 bres Hs) as [_ Hall].
+      pose proof (Hall i ltac:(first [exact Ei | reflexivity])) as Hsn.
       pose proof (H2 f2 true Hsn). discriminate.
-  - cbn [fst ok_res]. intros f2 bres Hs. destruct (Hinv f2 bres Hs) as [Hb' Hall]. try rewrite Ei in Hb'.
-    destruct (Hall i ltac:(first [exact Ei | reflexivity])) as [Hbound _]. rewrite (is_matched_formula a b i Hbound Hb) in Em.
-    injection Em as Em. rewrite Hb', Em. reflexivity.
-  - cbn [fst ok_res]. intros f2 bres Hs. destruct (Hinv f2 bres Hs) as [Hb' Hall].
-    destruct (Hall i ltac:(first [exact Ei | reflexivity])) as [Hbound _]. rewrite (is_matched_formula a b i Hbound Hb) in Em. discriminate.
+  - cbn [fst ok_res]. intros f2 bres Hs. destruct (Hinv f2 bres Hs) as [Hb' _]. try rewrite Ei in Hb'.
+    rewrite Hb'. reflexivity.
 Qed.
 
 Lemma step_rule : forall f, IHf f -> forall r n e,
@@ -1285,20 +1203,19 @@ Qed.
 
 End Main.
 
-(* ================================================================== the corrected theorem *)
+(* ================================================================== the theorem *)
 
-Lemma C05_eval_iff_sem_partial : C05_eval_iff_sem_partial_stmt.
+Lemma C05_eval_iff_sem_closed : C05_eval_iff_sem_closed_stmt.
 Proof.
-  intros c r n e fuel1 fuel2 res e' b Hcl Hccl Hdoc Hnb Hcnb Hsm Hev Hsem.
+  intros c r n e fuel1 fuel2 res e' b Hcl Hccl Hdoc Hev Hsem.
   pose proof Hdoc as (Hwf & Hnz & Hids & Hfields).
-  pose proof (goodc_intro c r Hccl Hcnb Hdoc) as Hutils.
+  pose proof (goodc_intro c r Hccl Hdoc) as Hutils.
   assert (Hg : goodr c r).
-  { repeat split; try assumption. intros f Hf. apply Hfields. apply in_or_app. now left. }
-  pose proof (main_spec c Hwf Hnz Hids Hsm Hutils fuel1 (QRule r n) e Hg) as H.
+  { split; [assumption|]. intros f Hf. apply Hfields. apply in_or_app. now left. }
+  pose proof (main_spec c Hwf Hnz Hids Hutils fuel1 (QRule r n) e Hg) as H.
   rewrite Hev in H. cbn [fst ok_res] in H. exact (H fuel2 b Hsem).
 Qed.
-Print Assumptions C05_eval_iff_sem_partial.
-Print Assumptions C05_eval_iff_sem_closed_refuted.
+Print Assumptions C05_eval_iff_sem_closed.
 Print Assumptions C05_ofrule_relational_example.
 
 (* ================================================================== C19 (proved in Rule/SemNav.v) *)
